@@ -311,6 +311,17 @@ pub fn run_rm2(args: &[i128], cont: usize, rm: bool, readd: bool) -> Vec<i128> {
         LOG.with(|l| { let l = l.borrow(); out.push((l.len() / 2) as i128); out.extend(l.iter()); });
         let mut flags = Vec::new();
         preorder(&shape, &mut flags);
+        if let Top::G(_, g) = &top {
+            // a causaloid index beyond 32 bits (index + 2^32) must not alias a member: reasoning addressed to it must fail and leave
+            // every activation alone; any hit is reported as an extra flag 777002
+            let big = 1usize << 32;
+            let one = [11.0f64];
+            let mut alias = false;
+            for i in 0..12usize {
+                if g.contains_causaloid(i + big) || g.get_causaloid(i + big).is_some() || g.reason_single_cause(i + big, &one).is_ok() { alias = true; }
+            }
+            if alias { flags.push(777002); }
+        }
         out.push(flags.len() as i128);
         out.extend(flags);
         match &top {
@@ -356,4 +367,48 @@ pub fn run_conc(args: &[i128]) -> Vec<i128> {
         (ha.join().unwrap(), hb.join().unwrap())
     });
     vec![ra.0, rb.0, ra.1, rb.1]
+}
+
+// a LARGE graph of singleton causaloids. line: causalbig n
+// nodes 0..n-1 (node 0 is the root); the first 60000 use the threshold function (true on the data below), the later ones the
+// negated one (false on it); edges 0->1, 1->2, 0->3.  output: size, reason_all_causes, shortest-path reasoning 0 -> 2, id of the
+// causaloid at index 0, contains(n-1), reason_single_cause(n-1).   expected (closed form): n 1 1 0 1 (0 if n > 60000 else 1)
+pub fn run_big(args: &[i128]) -> Vec<i128> {
+    let n = args[0] as usize;
+    if args.len() > 1 { return run_chain(n, args[1]); }
+    let mut g: BaseCausalGraph<'static> = CausaloidGraph::new();
+    for i in 0..n {
+        let c: C = Causaloid::new((i % 7) as u64, if i < 60000 { f_thr } else { f_neg }, "s");
+        let ix = if i == 0 { g.add_root_causaloid(c) } else { g.add_causaloid(c) };
+        if ix != i { return vec![-5, i as i128, ix as i128]; }
+    }
+    for (a, b) in [(0usize, 1usize), (1, 2), (0, 3)] { if a < n && b < n { let _ = g.add_edge(a, b); } }
+    let data: Vec<f64> = (0..14).map(|k| (10 * k + 1) as f64).collect();
+    let conv = |r: Result<bool, CausalityGraphError>| -> i128 { match r { Ok(true) => 1, Ok(false) => 0, Err(_) => -1 } };
+    let all = conv(g.reason_all_causes(&data, None));
+    let sp = if n > 2 { conv(g.reason_shortest_path_between_causes(0, 2, &data, None)) } else { 1 };
+    let id0 = g.get_causaloid(0).map(|c| c.id() as i128).unwrap_or(-1);
+    let last = conv(g.reason_single_cause(n - 1, &data[..1]));
+    vec![g.size() as i128, all, sp, id0, g.contains_causaloid(n - 1) as i128, last]
+}
+
+// a LONG CHAIN 0 -> 1 -> ... -> n-1 of singleton causaloids (root 0); node k (if 0 <= k < n) is the only one that evaluates false.
+// line: causalbig n k.   output: reason_all_causes, number of causal-function calls it made, the same through a wrapping causaloid.
+// expected (closed form): k in range: 0, k+1, 0 ; else 1, n, 1
+fn run_chain(n: usize, k: i128) -> Vec<i128> {
+    let mut g: BaseCausalGraph<'static> = CausaloidGraph::new_with_capacity(4);
+    for i in 0..n {
+        let c: C = Causaloid::new((i % 7) as u64, if i as i128 == k { f_neg } else { f_thr }, "s");
+        if i == 0 { g.add_root_causaloid(c); } else { g.add_causaloid(c); }
+    }
+    for i in 0..n.saturating_sub(1) { let _ = g.add_edge(i, i + 1); }
+    let data: Vec<f64> = (0..14).map(|j| (10 * j + 1) as f64).collect();
+    let conv = |r: Result<bool, String>| -> i128 { match r { Ok(true) => 1, Ok(false) => 0, Err(_) => -1 } };
+    LOG.with(|l| l.borrow_mut().clear());
+    let all = conv(g.reason_all_causes(&data, None).map_err(|e| e.to_string()));
+    let calls = LOG.with(|l| l.borrow().len() / 2) as i128;
+    let g: &'static BaseCausalGraph<'static> = Box::leak(Box::new(g));
+    let w: C = Causaloid::from_causal_graph(99, g, "graph");
+    let wrapped = conv(w.verify_all_causes(&data, None).map_err(|e| e.to_string()));
+    vec![all, calls, wrapped]
 }
